@@ -159,9 +159,14 @@ def _build_engine(mods, work: Path, case, tag=""):
         types = sorted(set(case["masses"]))
         txt = ["Title", "", f"{n} atoms", "0 bonds", "", f"{len(types)} atom types", "",
                "0 30 xlo xhi", "0 30 ylo yhi", "0 30 zlo zhi", "", "Masses", ""]
-        txt += [f"{k + 1}\t{m!r}" for k, m in enumerate(types)]
+        # the rows of both sections come in a case-dependent order (legal LAMMPS; audit finding
+        # C16:lammps:masses-section-not-sorted): no draw from the rng, so recorded cases replay identically
+        flip = sum(repr(case["masses"]).encode()) % 4
+        mrows = [f"{k + 1}\t{m!r}" for k, m in enumerate(types)]
+        arows = [f"{i + 1}\t1\t{types.index(m) + 1} 0.000\t{i}.000 0.000 0.000" for i, m in enumerate(case["masses"])]
+        txt += mrows[::-1] if flip in (1, 3) else mrows
         txt += ["", "Atoms", ""]
-        txt += [f"{i + 1}\t1\t{types.index(m) + 1} 0.000\t{i}.000 0.000 0.000" for i, m in enumerate(case["masses"])]
+        txt += arows[::-1] if flip in (2, 3) else arows
         (d / "lammps.data").write_text("\n".join(txt) + "\n")
         e = mods["LAMMPSEngine"]("lmp_mpi", d.resolve(), 0, 0, T)
     elif eng == "cp2k":
@@ -1647,6 +1652,9 @@ def run(ctx):
             from props import c16_flow
             c16_flow.run_flow(ctx, _sys.modules[__name__], mods, work)
             _assume(ctx, c16_flow.ASSUMPTIONS)
+            from props import c16_extra
+            c16_extra.run_extra(ctx, _sys.modules[__name__], mods, work)
+            _assume(ctx, c16_extra.ASSUMPTIONS)
         except Exception as ex:  # noqa: BLE001
             import traceback
             ctx.disagree({"fn": "harness exception in run_routes"}, type(ex).__name__ + ": " + str(ex)[:300],
@@ -1722,6 +1730,17 @@ def replay(ctx, obj):
         import sys as _sys
         from props import c16_routes
         return c16_routes.replay_helper(ctx, _sys.modules[__name__], mods, r, obj)
+    if r.get("check") in ("lmass", "turtle-dim"):
+        import sys as _sys
+        from props import c16_extra
+        work = Path(tempfile.mkdtemp(prefix="c16-replay-", dir="/var/tmp"))
+        cwd = os.getcwd()
+        try:
+            os.chdir(work)
+            return c16_extra.replay_extra(ctx, _sys.modules[__name__], mods, work, r, obj)
+        finally:
+            os.chdir(cwd)
+            shutil.rmtree(work, ignore_errors=True)
     if r.get("check") in ("route", "flow"):
         import sys as _sys
         from props import c16_flow, c16_routes
